@@ -310,6 +310,9 @@ def shards(tier):
     per = max(1, len(keys) // 6)
     for i in range(0, len(keys), per):
         sh.append({"kind": "pretty", "lo": i, "hi": i + per, "n": 3000 if th else 170})
+    sh.append({"kind": "pretty", "lo": 0, "hi": 0, "n": 2500 if th else 220,
+               "only": [["ObjectUpdateCompressed", "ObjectData", "Data"], ["ObjectUpdate", "ObjectData", "ObjectData"],
+                        ["ImprovedTerseObjectUpdate", "ObjectData", "Data"]]})
     sh.append({"kind": "safe", "n": 40000 if th else 1100})
     return sh
 
@@ -335,6 +338,9 @@ def run_shard(ctx, shard):
         hyp_run(ctx, strat(), body, shard["n"])
     elif shard["kind"] == "pretty":
         keys = pretty_keys()[shard["lo"]:shard["hi"]]
+        if shard.get("only"):
+            # sub-structures that nest further lazily decoded sections: their pretty form prints what is nested inside
+            keys = [k for k in pretty_keys() if k[0] in [tuple(x) for x in shard["only"]]]
         if not keys:
             return
 
